@@ -47,7 +47,7 @@ func (s S) Sum(base int64, more ...int64) int64 {
 	}
 	return r
 }
-func (s S) Pair() (int64, string)              { return s.A, s.B }
+func (s S) Pair() (int64, string)               { return s.A, s.B }
 func (s S) Triple(x float64) (float64, S, bool) { return x * 2, s, s.A > 0 }
 func (s S) Nothing()                            {}
 func (s S) Echo(v interface{}) interface{}      { return v }
@@ -84,52 +84,52 @@ type poolEntry struct {
 
 // Pool is the fixed type pool. The index of an entry is what cases store; never reorder.
 var Pool = []poolEntry{
-	{"bool", reflect.TypeOf(false)},                            // 0
-	{"int", reflect.TypeOf(int(0))},                            // 1
-	{"int8", reflect.TypeOf(int8(0))},                          // 2
-	{"int16", reflect.TypeOf(int16(0))},                        // 3
-	{"int32", reflect.TypeOf(int32(0))},                        // 4
-	{"int64", reflect.TypeOf(int64(0))},                        // 5
-	{"uint", reflect.TypeOf(uint(0))},                          // 6
-	{"uint8", reflect.TypeOf(uint8(0))},                        // 7
-	{"uint16", reflect.TypeOf(uint16(0))},                      // 8
-	{"uint32", reflect.TypeOf(uint32(0))},                      // 9
-	{"uint64", reflect.TypeOf(uint64(0))},                      // 10
-	{"float32", reflect.TypeOf(float32(0))},                    // 11
-	{"float64", reflect.TypeOf(float64(0))},                    // 12
-	{"string", reflect.TypeOf("")},                             // 13
-	{"iface", tIface},                                          // 14
-	{"error", tError},                                          // 15
-	{"MyInt", reflect.TypeOf(MyInt(0))},                        // 16
-	{"MyStr", reflect.TypeOf(MyStr(""))},                       // 17
-	{"[]byte", reflect.TypeOf([]byte(nil))},                    // 18
-	{"[]int64", reflect.TypeOf([]int64(nil))},                  // 19
-	{"[]int32", reflect.TypeOf([]int32(nil))},                  // 20
-	{"[]float64", reflect.TypeOf([]float64(nil))},              // 21
-	{"[]string", reflect.TypeOf([]string(nil))},                // 22
-	{"[]iface", reflect.TypeOf([]interface{}(nil))},            // 23
-	{"[][]int64", reflect.TypeOf([][]int64(nil))},              // 24
-	{"[]MyInt", reflect.TypeOf([]MyInt(nil))},                  // 25
-	{"[2]int64", reflect.TypeOf([2]int64{})},                   // 26
-	{"[3]string", reflect.TypeOf([3]string{})},                 // 27
-	{"map[string]int64", reflect.TypeOf(map[string]int64(nil))},                   // 28
-	{"map[string]iface", reflect.TypeOf(map[string]interface{}(nil))},             // 29
-	{"map[iface]iface", reflect.TypeOf(map[interface{}]interface{}(nil))},         // 30
-	{"map[int64]string", reflect.TypeOf(map[int64]string(nil))},                   // 31
-	{"map[string][]int64", reflect.TypeOf(map[string][]int64(nil))},               // 32
-	{"*int64", reflect.TypeOf((*int64)(nil))},                  // 33
-	{"*S", reflect.TypeOf((*S)(nil))},                          // 34
-	{"S", tS},                                                  // 35
-	{"[]S", reflect.TypeOf([]S(nil))},                          // 36
-	{"chan int64", reflect.TypeOf((chan int64)(nil))},          // 37
-	{"func(int64)int64", reflect.TypeOf((func(int64) int64)(nil))},   // 38
-	{"func(string)string", reflect.TypeOf((func(string) string)(nil))}, // 39
-	{"[]uint16", reflect.TypeOf([]uint16(nil))},                // 40
-	{"map[string]float32", reflect.TypeOf(map[string]float32(nil))}, // 41
-	{"[]*S", reflect.TypeOf([]*S(nil))},                        // 42
-	{"map[MyStr]MyInt", reflect.TypeOf(map[MyStr]MyInt(nil))},  // 43
-	{"[]float32", reflect.TypeOf([]float32(nil))},              // 44
-	{"[]bool", reflect.TypeOf([]bool(nil))},                    // 45
+	{"bool", reflect.TypeOf(false)},                                       // 0
+	{"int", reflect.TypeOf(int(0))},                                       // 1
+	{"int8", reflect.TypeOf(int8(0))},                                     // 2
+	{"int16", reflect.TypeOf(int16(0))},                                   // 3
+	{"int32", reflect.TypeOf(int32(0))},                                   // 4
+	{"int64", reflect.TypeOf(int64(0))},                                   // 5
+	{"uint", reflect.TypeOf(uint(0))},                                     // 6
+	{"uint8", reflect.TypeOf(uint8(0))},                                   // 7
+	{"uint16", reflect.TypeOf(uint16(0))},                                 // 8
+	{"uint32", reflect.TypeOf(uint32(0))},                                 // 9
+	{"uint64", reflect.TypeOf(uint64(0))},                                 // 10
+	{"float32", reflect.TypeOf(float32(0))},                               // 11
+	{"float64", reflect.TypeOf(float64(0))},                               // 12
+	{"string", reflect.TypeOf("")},                                        // 13
+	{"iface", tIface},                                                     // 14
+	{"error", tError},                                                     // 15
+	{"MyInt", reflect.TypeOf(MyInt(0))},                                   // 16
+	{"MyStr", reflect.TypeOf(MyStr(""))},                                  // 17
+	{"[]byte", reflect.TypeOf([]byte(nil))},                               // 18
+	{"[]int64", reflect.TypeOf([]int64(nil))},                             // 19
+	{"[]int32", reflect.TypeOf([]int32(nil))},                             // 20
+	{"[]float64", reflect.TypeOf([]float64(nil))},                         // 21
+	{"[]string", reflect.TypeOf([]string(nil))},                           // 22
+	{"[]iface", reflect.TypeOf([]interface{}(nil))},                       // 23
+	{"[][]int64", reflect.TypeOf([][]int64(nil))},                         // 24
+	{"[]MyInt", reflect.TypeOf([]MyInt(nil))},                             // 25
+	{"[2]int64", reflect.TypeOf([2]int64{})},                              // 26
+	{"[3]string", reflect.TypeOf([3]string{})},                            // 27
+	{"map[string]int64", reflect.TypeOf(map[string]int64(nil))},           // 28
+	{"map[string]iface", reflect.TypeOf(map[string]interface{}(nil))},     // 29
+	{"map[iface]iface", reflect.TypeOf(map[interface{}]interface{}(nil))}, // 30
+	{"map[int64]string", reflect.TypeOf(map[int64]string(nil))},           // 31
+	{"map[string][]int64", reflect.TypeOf(map[string][]int64(nil))},       // 32
+	{"*int64", reflect.TypeOf((*int64)(nil))},                             // 33
+	{"*S", reflect.TypeOf((*S)(nil))},                                     // 34
+	{"S", tS},                                                             // 35
+	{"[]S", reflect.TypeOf([]S(nil))},                                     // 36
+	{"chan int64", reflect.TypeOf((chan int64)(nil))},                     // 37
+	{"func(int64)int64", reflect.TypeOf((func(int64) int64)(nil))},        // 38
+	{"func(string)string", reflect.TypeOf((func(string) string)(nil))},    // 39
+	{"[]uint16", reflect.TypeOf([]uint16(nil))},                           // 40
+	{"map[string]float32", reflect.TypeOf(map[string]float32(nil))},       // 41
+	{"[]*S", reflect.TypeOf([]*S(nil))},                                   // 42
+	{"map[MyStr]MyInt", reflect.TypeOf(map[MyStr]MyInt(nil))},             // 43
+	{"[]float32", reflect.TypeOf([]float32(nil))},                         // 44
+	{"[]bool", reflect.TypeOf([]bool(nil))},                               // 45
 }
 
 // index groups used by the generators
